@@ -77,7 +77,7 @@ def build(rng, cands, k=1, n_each=100, tagged=None, dialect=None, opts=None, int
         rec = dict(rec)
         rec['t_conn_us'] = rec['t_us']
         rec['t_us'] = clock
-        entries.append({'tag': tags[i], 'ci': i, 'rec': rec, 'side': side[i], 'k': pos[i] - 1,
+        entries.append({'tag': tags[i], 'ci': i, 'rec': rec, 'side': side[i], 'k': pos[i] - 1, 'queue': queue[i],
                         'line': history.render(rec, side[i], dialect, tags[i], queue[i])})
     names = {}
     for e in entries:
@@ -144,3 +144,14 @@ def within_one_unit(shown, exact_us_diff):
     """shown: 'N.NNNN' seconds; exact: microseconds (int) -> |shown - exact| <= 1 unit of the 4th decimal (+ half for rounding)"""
     exact = Decimal(exact_us_diff) / Decimal(1000000)
     return abs(Decimal(shown) - exact) <= Decimal('0.00015')
+
+
+def shifted_lines(st, shift_us, dialect=None):
+    """the same stream with a constant added to every time (optionally in another dialect / decimal mark)"""
+    out = []
+    d = dialect or st['dialect']
+    for e in st['entries']:
+        rec = dict(e['rec'])
+        rec['t_us'] = e['rec']['t_us'] + shift_us
+        out.append(history.render(rec, e['side'], d, e['tag'], e['queue'] if d['new'] else None))
+    return out
